@@ -5,8 +5,8 @@
    theorems identify each stage with the textbook covariance-form Kalman
    filter of Spec/RTS.v on the closed-form integrated-Wiener transition. *)
 From Coq Require Import List Arith.
-From PD Require Import Base.Field Base.Matrix Base.Solve Model.Gauss Model.Prior Spec.RTS
-  Proofs.GaussProofs Proofs.FilterProofs Proofs.PriorProofs.
+From PD Require Import Base.Field Base.Matrix Base.Solve Model.Gauss Model.Poly Model.Prior Model.Solver Spec.RTS
+  Proofs.GaussProofs Proofs.FilterProofs Proofs.PriorProofs Proofs.SolverRefine.
 Import ListNotations.
 
 Section C02.
@@ -37,8 +37,45 @@ Section C02.
         (bayes_rule inv n k c (from_linop_and_noise n k Hm (mkN r R)) (mzero k c) rv)
       = kf_update inv n k c Hm r R rv.
   Proof. exact bayes_rule_is_kalman_update. Qed.
+
+  (* ONE WHOLE SOLVER STEP (solver.step: predict, linearise, correct) of the
+     uncalibrated filter with zeroth-order linearisation in the isotropic model --
+     any q, any dimension d, any polynomial vector field of any order, any damping
+     and base scale, any step dt <> 0 -- IS one step of the textbook EKF
+     (Spec/RTS.v: kf_predict with the closed-form transition, kf_update with
+     H = derivative selector, r = -f(predicted mean), R = damp^2) *)
+  Theorem C02_isotropic_ts0_filter_step_is_ekf_step :
+    forall (q d : nat) (o : @odeP F) (base2 : @vec F) (damp2 : F)
+           (st : @sstate F) (rv : @normal F) (pc : list (@cond F)) (dt : F),
+      let cf := mkCfg (mkShape Iso q d) Filter CalNone TS0 o base2 damp2 in
+      dt <> f0 ->
+      st_u st = [rv] -> st_post st = mkPost [rv] pc ->
+      symmetric (S q) (n_cov (kf_predict (S q) d (iwp_A_closed q dt) (mzero (S q) d)
+                                (iwp_Q_closed q dt (fmul (vget base2 0) f1)) rv)) ->
+      solver_step minv cf st dt
+      = match ekf_step_iso q d o (fmul (vget base2 0) f1) damp2 (fadd (st_t st) dt) dt rv with
+        | None => None
+        | Some (upd, fx) =>
+          Some (mkSt (fadd (st_t st) dt) [upd] (mkPost [upd] pc) [f1] (st_run2 st)
+                     (st_ndata st) (S (st_nsteps st)) [fx])
+        end.
+  Proof. exact iso_ts0_filter_step_is_ekf_step. Qed.
+
+  (* the symmetry hypothesis is an invariant of the recursion: prediction and
+     update preserve symmetric covariances, so the step theorem applies at every
+     node of every grid *)
+  Theorem C02_symmetry_is_invariant :
+    (forall n c (A b Q : @mat F) (rv : @normal F),
+        symmetric n (n_cov rv) -> symmetric n Q -> symmetric n (n_cov (kf_predict n c A b Q rv))) /\
+    (forall q (h s2 : F), symmetric (S q) (iwp_Q_closed q h s2)) /\
+    (forall n k c (Hm r R : @mat F) (rv upd : @normal F),
+        symmetric n (n_cov rv) -> symmetric k R ->
+        kf_update minv n k c Hm r R rv = Some upd -> symmetric n (n_cov upd)).
+  Proof. exact (conj kf_predict_symmetric (conj iwp_Q_closed_symmetric kf_update_symmetric)). Qed.
 End C02.
 
 Print Assumptions C02_prediction_is_kalman_prediction.
 Print Assumptions C02_iwp_transition_closed_form.
 Print Assumptions C02_correction_is_kalman_update.
+Print Assumptions C02_isotropic_ts0_filter_step_is_ekf_step.
+Print Assumptions C02_symmetry_is_invariant.
